@@ -3,7 +3,11 @@ package main
 import (
 	"bytes"
 	"fmt"
+	"os"
+	"os/exec"
+	"path/filepath"
 	"runtime"
+	"strings"
 	"sync"
 	"sync/atomic"
 	"time"
@@ -12,7 +16,35 @@ import (
 	"verifharness/stack"
 )
 
-func init() { commands["c11x"] = c11x }
+func init() { commands["c11x"] = c11xParent; commands["c11xchild"] = c11x }
+
+// c11xParent runs the whole of c11x in a child process: a fatal runtime error in rend's code
+// (concurrent map writes, stack exhaustion, ...) is not a panic and cannot be recovered - it
+// takes the process down, which is then an observation (the server process must survive
+// malformed input) and not a harness failure.
+func c11xParent(e *env) {
+	exe, _ := os.Executable()
+	cmd := exec.Command(exe, "c11xchild", "-tier", e.tier, "-seed", fmt.Sprint(e.seed), "-out", e.out)
+	var stderr bytes.Buffer
+	cmd.Stderr = &stderr
+	err := cmd.Run()
+	rp := filepath.Join(e.out, "result.json")
+	crashed := strings.Contains(stderr.String(), "fatal error:") || strings.Contains(stderr.String(), "panic:")
+	if _, serr := os.Stat(rp); serr != nil || crashed {
+		if !crashed {
+			rig.Die("c11x child did not produce a result (%v): %s", err, tailStr(stderr.String(), 3000))
+		}
+		w := rig.NewWriter(e.out, "C11", e.tier, e.seed)
+		w.Res.Cases = []rig.Case{}
+		w.Fail(rig.GoFailure{Kind: "counterexample", What: "the server process died while connections were sending malformed input (a fatal runtime error cannot be recovered by the per-connection handler)",
+			Input: map[string]interface{}{"cmd": "c11x", "tier": e.tier, "seed": e.seed}, Detail: tailStr(stderr.String(), 3500)})
+		w.Add(rig.Case{Desc: map[string]interface{}{"cmd": "c11x", "crashed": true}, Coq: "tt", Nontrivial: true})
+		w.Res.Rule = "c11x child process crashed; see the failure"
+		if err := w.Finish([]string{"base.Bytes", "base.Harness"}, "unit", "(fun _ => 0%N)"); err != nil {
+			rig.Die("%v", err)
+		}
+	}
+}
 
 // c11x: containment ACROSS connections. Well-behaved bystander connections (own keys, requests
 // whose headers arrive split over two writes) run while attacker connections send malformed
@@ -142,9 +174,66 @@ func c11x(e *env) {
 		}
 		runtime.GOMAXPROCS(old)
 	}
+	// storm: every class of malformed input sent by 8 connections at the same instant, over and
+	// over (whatever the error paths share - pools, counters, log throttles - is hit concurrently)
+	stormIters := 30000
+	if thorough {
+		stormIters = 300000
+	}
+	{
+		b := stack.NewBackends()
+		b.L1.LogOn, b.L2.LogOn = false, false
+		noop := []byte{0x80, 0x0a, 0, 0, 0, 0, 0, 0, 0, 0, 0, 0, 0, 0, 0, 0, 0, 0, 0, 0, 0, 0, 0, 0}
+		for ai, atk := range attacks {
+			var swg sync.WaitGroup
+			var stuck int32
+			for g := 0; g < 8; g++ {
+				swg.Add(1)
+				go func(g int) {
+					defer swg.Done()
+					for i := 0; i < stormIters/len(attacks)+1; i++ {
+						proto := "bin"
+						msg := atk
+						if atk[0] >= 'a' && atk[0] <= 'z' {
+							proto = "text"
+						} else if atk[0] == 0x80 && g%2 == 0 {
+							msg = append(append([]byte{}, noop...), atk...) // a valid request first
+							if len(atk) >= 2 && atk[1] == 0xff {
+								msg[len(noop)+1] = []byte{0xff, 0x05, 0x08, 0x0c, 0x20}[i%5] // several unknown opcodes
+							}
+						}
+						cn := stack.Dial(b, stack.Config{Orca: "l1only", MultiRd: true, L1: "std", Proto: proto})
+						raw := cn.Raw()
+						raw.Write(msg)
+						go func() { // drain whatever is answered so that the server never blocks on its writes
+							buf := make([]byte, 4096)
+							for {
+								if _, err := raw.Read(buf); err != nil {
+									return
+								}
+							}
+						}()
+						raw.Close()
+						select {
+						case <-cn.Done:
+						case <-time.After(15 * time.Second):
+							atomic.StoreInt32(&stuck, 1)
+							return
+						}
+					}
+				}(g)
+			}
+			swg.Wait()
+			if stuck != 0 {
+				w.Fail(rig.GoFailure{Kind: "counterexample", What: "a connection that sent malformed input at the same time as seven others was not ended within 15 s after its client closed",
+					Input: map[string]interface{}{"cmd": "c11x", "part": "storm", "attack": ai}})
+			}
+			w.Count("storm-class")
+		}
+	}
 	w.CountN("attack-connection", int(nAttack))
 	w.CountN("bystander-round", int(nRound))
-	w.Res.Rule = "6 bystander connections (binary, own keys, every header split over two writes inside the 24 header bytes, set/get/delete rounds with fully determined replies) run while 3 attacker connections send one malformed input each (bad magic, unknown opcode, contradictory lengths, truncated header, bad text lines) and reconnect; with GOMAXPROCS 1 and with all processors, L1-only and L1/L2; a bystander reply that differs from the reply it gets alone, a timeout or a closed bystander connection is a counterexample"
+	w.Res.Rule = "6 bystander connections (binary, own keys, every header split over two writes inside the 24 header bytes, set/get/delete rounds with fully determined replies) run while 3 attacker connections send one malformed input each (bad magic, unknown opcode, contradictory lengths, truncated header, bad text lines) and reconnect; with GOMAXPROCS 1 and with all processors, L1-only and L1/L2; a bystander reply that differs from the reply it gets alone, a timeout or a closed bystander connection is a counterexample; then a storm: each class of malformed input sent by 8 connections at once, repeatedly; the whole run happens in a child process whose death (fatal runtime error) is a counterexample"
 	if err := w.Finish([]string{"base.Bytes", "base.Harness"}, "unit", "(fun _ => 0%N)"); err != nil {
 		rig.Die("%v", err)
 	}
